@@ -801,10 +801,11 @@ impl Arena {
     let mut allocated = header.allocated.load(Ordering::Acquire);
 
     loop {
-      let want = allocated + size;
-      if want > self.cap {
+      let want = allocated as u64 + size as u64;
+      if want > self.cap as u64 {
         break;
       }
+      let want = want as u32;
 
       match header.allocated.compare_exchange_weak(
         allocated,
@@ -950,10 +951,11 @@ impl Arena {
     let want = loop {
       let aligned_offset = align_offset::<T>(allocated);
       let size = mem::size_of::<T>() as u32;
-      let want = aligned_offset + size + extra;
-      if want > self.cap {
-        break size + extra;
+      let want = aligned_offset as u64 + size as u64 + extra as u64;
+      if want > self.cap as u64 {
+        break size.saturating_add(extra);
       }
+      let want = want as u32;
 
       match header.allocated.compare_exchange_weak(
         allocated,
@@ -987,7 +989,7 @@ impl Arena {
           });
         }
         Freelist::Optimistic => {
-          match self.alloc_slow_path_optimistic(Self::pad::<T>() as u32 + extra) {
+          match self.alloc_slow_path_optimistic((Self::pad::<T>() as u32).saturating_add(extra)) {
             Ok(mut bytes) => {
               bytes.align_bytes_to::<T>();
               return Ok(Some(bytes));
@@ -1000,7 +1002,7 @@ impl Arena {
           }
         }
         Freelist::Pessimistic => {
-          match self.alloc_slow_path_pessimistic(Self::pad::<T>() as u32 + extra) {
+          match self.alloc_slow_path_pessimistic((Self::pad::<T>() as u32).saturating_add(extra)) {
             Ok(mut bytes) => {
               bytes.align_bytes_to::<T>();
               return Ok(Some(bytes));
